@@ -285,6 +285,9 @@ func DecodeAlstSampleGroupEntry(name string, length uint32, sr bits.SliceReader)
 		entry.SampleOffset[i] = sr.ReadUint32()
 	}
 
+	if uint64(length) <= entry.Size() { // also guards the unsigned subtraction below against wrap-around
+		return entry, sr.AccError()
+	}
 	remaining := int(length-uint32(entry.Size())) / 4
 	if remaining <= 0 {
 		return entry, sr.AccError()
